@@ -603,3 +603,72 @@ Lemma items_in_class :
   saccepts (spec_run g_items c_default (orc_of t_items) 60 in_items) = true /\
   accepts (run g_items c_default (orc_of [((0,0),1)]) false 60 [97;32;61]%N) = false.
 Proof. vm_compute. repeat split. Qed.
+
+(* ---------------------------------------------------------------- more witnesses outside the class *)
+Definition spec_tree (r : sres) : list tree := match r with SOk ts _ => erase_all ts | _ => [] end.
+Definition run_tree (o : outcome) : list tree := match o with Parsed r => flatten r | _ => [] end.
+
+(* Model: a=A b=B?; A: x=ID?; B: 'b';   on ""  -- a rule that matches the empty string *)
+Definition g_nullable : grammar := (mkGrammar [mkNode KSeq [1;9] None false [77;111;100;101;108]%N true false None None;
+  mkNode KSeq [2;6] None false [77;111;100;101;108]%N true false None None;
+  mkNode KSeq [3] None false [95;95;97;115;103;110;95;112;108;97;105;110]%N true false None None;
+  mkNode KOpt [4] None false [65]%N true false None None;
+  mkNode KSeq [5] None false [95;95;97;115;103;110;95;112;108;97;105;110]%N true false None None;
+  mkNode (KRegex 0) [] None false [73;68]%N true false None None;
+  mkNode KOpt [7] None false []%N false false None None;
+  mkNode KSeq [8] None false [95;95;97;115;103;110;95;112;108;97;105;110]%N true false None None;
+  mkNode (KStr [98]%N None) [] None false [66]%N true false None None;
+  mkNode KEOF [] None false [69;79;70]%N false false None None] 0 None).
+Lemma refuted_nullable :
+  wfg g_nullable 24 = false /\
+  run_tree (run g_nullable c_default (fun _ _ => None) false 50 []) = [NT 0 [T 9 0 0 true]] /\
+  spec_tree (spec_run g_nullable c_default (fun _ _ => None) 50 []) = [NT 0 [NT 1 [NT 2 []]; T 9 0 0 true]].
+Proof. vm_compute. repeat split. Qed.
+
+(* Model: a=A ',' b=B; A: xs+=X[',']; X: 'x'; B: 'b';   on "x,b"  -- trailing separator *)
+Definition g_trailsep : grammar := (mkGrammar [mkNode KSeq [1;10] None false [77;111;100;101;108]%N true false None None;
+  mkNode KSeq [2;7;8] None false [77;111;100;101;108]%N true false None None;
+  mkNode KSeq [3] None false [95;95;97;115;103;110;95;112;108;97;105;110]%N true false None None;
+  mkNode KSeq [4] None false [65]%N true false None None;
+  mkNode KPlus [5] (Some 6) false [95;95;97;115;103;110;95;111;110;101;111;114;109;111;114;101]%N true false None None;
+  mkNode (KStr [120]%N None) [] None false [88]%N true false None None;
+  mkNode (KStr [44]%N None) [] None false [115;101;112]%N false false None None;
+  mkNode (KStr [44]%N None) [] None false []%N false false None None;
+  mkNode KSeq [9] None false [95;95;97;115;103;110;95;112;108;97;105;110]%N true false None None;
+  mkNode (KStr [98]%N None) [] None false [66]%N true false None None;
+  mkNode KEOF [] None false [69;79;70]%N false false None None] 0 None).
+Lemma refuted_trailsep :
+  wfg g_trailsep 24 = false /\
+  run_tree (run g_trailsep c_default (fun _ _ => None) false 50 [120;44;98]%N) =
+    [NT 0 [NT 1 [NT 2 [NT 3 [NT 4 [T 5 0 1 false; T 6 1 1 false]]]; T 7 1 1 true; NT 8 [T 9 2 1 true]]; T 10 3 0 true]] /\
+  spec_tree (spec_run g_trailsep c_default (fun _ _ => None) 50 [120;44;98]%N) =
+    [NT 0 [NT 1 [NT 2 [NT 3 [NT 4 [T 5 0 1 false]]]; T 7 1 1 true; NT 8 [T 9 2 1 true]]; T 10 3 0 true]].
+Proof. vm_compute. repeat split. Qed.
+
+(* Model: x=/a*/ 'b';   on "b"  -- a regex match of length 0 (the oracle reports Some 0) *)
+Definition g_emptyrx : grammar := (mkGrammar [mkNode KSeq [1;5] None false [77;111;100;101;108]%N true false None None;
+  mkNode KSeq [2;4] None false [77;111;100;101;108]%N true false None None;
+  mkNode KSeq [3] None false [95;95;97;115;103;110;95;112;108;97;105;110]%N true false None None;
+  mkNode (KRegex 0) [] None false []%N false false None None;
+  mkNode (KStr [98]%N None) [] None false []%N false false None None;
+  mkNode KEOF [] None false [69;79;70]%N false false None None] 0 None).
+Definition t_emptyrx := [((0,0),0);((0,1),0)].
+Lemma refuted_emptyrx :
+  wfg g_emptyrx 24 = true /\ orc_of t_emptyrx 0 0 = Some 0 /\
+  run_tree (run g_emptyrx c_default (orc_of t_emptyrx) false 50 [98]%N) = [NT 0 [NT 1 [T 4 0 1 true]; T 5 1 0 true]] /\
+  spec_tree (spec_run g_emptyrx c_default (orc_of t_emptyrx) 50 [98]%N) =
+    [NT 0 [NT 1 [NT 2 [T 3 0 0 false]; T 4 0 1 true]; T 5 1 0 true]].
+Proof. vm_compute. repeat split. Qed.
+
+(* Model: ('a'-)* 'b';   on "aab"  -- a repetition whose element produces no node *)
+Definition g_repsup : grammar := (mkGrammar [mkNode KSeq [1;5] None false [77;111;100;101;108]%N true false None None;
+  mkNode KSeq [2;4] None false [77;111;100;101;108]%N true false None None;
+  mkNode KStar [3] None false []%N false false None None;
+  mkNode (KStr [97]%N None) [] None false []%N false true None None;
+  mkNode (KStr [98]%N None) [] None false []%N false false None None;
+  mkNode KEOF [] None false [69;79;70]%N false false None None] 0 None).
+Lemma refuted_repsup :
+  wfg g_repsup 24 = false /\
+  saccepts (spec_run g_repsup c_default (fun _ _ => None) 50 [97;97;98]%N) = true /\
+  run g_repsup c_default (fun _ _ => None) false 50 [97;97;98]%N = SyntaxErr 1.
+Proof. vm_compute. repeat split. Qed.
